@@ -73,7 +73,7 @@ def make_machine(sh, found, steps_budget):
             for name, src in c04.MODS.items():
                 with open(os.path.join(self.root, name + '.py'), 'w') as f:
                     f.write(src)
-            self.env = Environment(env={'SUPP_LOG_LEVEL': '100'})
+            self.env = Environment(env={'SUPP_LOG_LEVEL': '100', 'PYTHONPATH': core.REPO})
             self.mirror = supp_server.Server(None)
             self.ops = []
             self.configured = False
@@ -86,12 +86,16 @@ def make_machine(sh, found, steps_budget):
         def both(self, name, *args, **kwargs):
             """send through the client and evaluate on the mirror; compare"""
             self.ops.append((name, _brief(args)))
-            want, want_ok = self.mirror.process(name, list(args) if False else args, kwargs)
+            # expected outcome computed WITHOUT the dispatcher under test (Server.process): call the method directly
+            try:
+                want, want_ok = getattr(self.mirror, name)(*args, **kwargs), True
+            except Exception as e:
+                want, want_ok = (type(e).__name__, str(e)), False
             if want_ok:
                 try:
                     from supp.umsgpack import dumps
                     dumps((want, True))
-                except Exception:
+                except BaseException:
                     want, want_ok = ('SerializeError', 'Serialize error'), False
             try:
                 got = self.env._call(name, *args, **kwargs)
@@ -117,15 +121,28 @@ def make_machine(sh, found, steps_budget):
             raise AssertionError(sig)
 
         # -- rules
+        def do_configure(self, cfg):
+            """the mirror gets a NEW Project built by the harness (not by Server.configure, which is under test)"""
+            from supp.project import Project
+            self.ops.append(('configure', _brief(cfg)))
+            got = self.env.configure(cfg)
+            self.mirror.project = Project(list(cfg['sources']), dyn_modules=cfg.get('dyn_modules'))
+            if got is not None:
+                self.fail('reply-differs:configure', 'configure returned %r' % (got,))
+            if self.faults:
+                self.ok_after_fault += 1
+
         @initialize()
         def configure_first(self):
-            self.both('configure', {'sources': [self.root]})
+            self.do_configure({'sources': [self.root]})
             self.configured = True
 
-        @rule(extra=st.booleans())
-        def configure(self, extra):
+        @rule(extra=st.booleans(), dyn=st.sampled_from([None, None, ['m2'], ['m1', 'm2'], ['json']]))
+        def configure(self, extra, dyn):
             cfg = {'sources': [self.root] + ([suppview.FIXTURES] if extra else [])}
-            self.both('configure', cfg)
+            if dyn is not None:
+                cfg['dyn_modules'] = dyn
+            self.do_configure(cfg)
 
         @rule(i=st.integers(0, len(SNIPPETS) - 1), which=st.sampled_from(['assist', 'location']))
         def cursor(self, i, which):
@@ -182,6 +199,12 @@ def make_machine(sh, found, steps_budget):
         @rule()
         def eval_unserialisable_nested(self):
             self.both('eval', 'return {"a": [1, {2, 3}]}')
+
+        @rule(src=st.sampled_from(['return "\\ud800"', 'a = []\na.append(a)\nreturn a', 'return {1: "\\udfff"}',
+                                   'return 2 ** 70', 'return [1, -2 ** 64]', 'return 1.5, float("inf"), -0.0']))
+        def eval_hard_to_serialise(self, src):
+            # values whose packing fails in other ways than "unsupported type" (encoding error, recursion, overflow)
+            self.both('eval', src)
 
         @rule(i=st.integers(0, len(BROKEN) - 1), which=st.sampled_from(['assist', 'location', 'lint']))
         def syntax_error(self, i, which):
@@ -272,11 +295,16 @@ def replay(case):
                     m.lint('m0')
                 elif name == 'eval':
                     m.eval_token()
+                    m.eval_hard_to_serialise('return "\\ud800"')
+                    m.eval_hard_to_serialise('a = []\na.append(a)\nreturn a')
                     m.eval_raises('boom')
                     m.eval_unserialisable()
                     m.payload_eval(65536)
                 elif name == 'configure':
-                    m.configure(False)
+                    m.configure(False, ['m2'])
+                    for i, (src, pos) in enumerate(SNIPPETS):
+                        m.both('assist', src, pos, os.path.join(m.root, 'buffer.py'))
+                    m.configure(False, None)
                 else:
                     m.both(name)
             except AssertionError:
